@@ -9,6 +9,7 @@
  * oracle verbs (stateful, not mirrored by the Lean driver):
  *   o.setfh HSN MAIO MA                                 -> ok           configures l1s.dedicated (n = number of entries)
  *   o.range FN COUNT                                    -> COUNT ARFCNs for fn .. fn+count-1 (gsm_fn2gsmtime + rfch_get_params)
+ *   o.res FN...                                         -> one ARFCN per FN
  * MA: "-" = empty, otherwise comma separated ARFCNs (at most 64: the size of l1s.dedicated.h1.ma[]).
  * Requests that would make the C code read outside rn_table[] / ma[] or divide by zero are
  * undefined behaviour; the check never sends them (it asks only the Lean model about them).
@@ -106,6 +107,21 @@ int main(void)
 				gsm_fn2gsmtime(&t, (uint32_t) (a[0] + i));
 				rfch_get_params(&t, &arfcn, NULL, NULL);
 				printf(i ? " %u" : "%u", arfcn);
+			}
+			printf("\n");
+		} else if (!strncmp(line, "o.res ", 6)) {
+			const char *q = line + 6;
+			int first = 1;
+			for (;;) {
+				char *end;
+				unsigned long fn = strtoul(q, &end, 10);
+				if (end == q)
+					break;
+				q = end;
+				gsm_fn2gsmtime(&t, (uint32_t) fn);
+				rfch_get_params(&t, &arfcn, NULL, NULL);
+				printf(first ? "%u" : " %u", arfcn);
+				first = 0;
 			}
 			printf("\n");
 		} else {
